@@ -15,6 +15,12 @@ written, every tree is first brought to one canonical spelling. Each rewrite is 
   C8  a counter step written as a re-binding is written as an augmented assignment:  n = n + 1  ->  n += 1  (plain local name, numeric
       constant step, + or - only: for numbers the two are the same statement)
   C9  a membership test against a literal list is written against the literal tuple:  x in [a, b]  ->  x in (a, b)
+  C10 an `else` after a branch that always leaves the block is flattened (pylint's no-else-return):
+      if c: A; return   else: B      ->      if c: A; return      B          (also raise / continue / break; applied outermost first, so an
+      if/elif/else ladder whose branches all leave becomes a sequence of guards)
+  C11 if c: x = a  else: x = b   ->   x = a if c else b      (one plain-name target, single assignments on both sides)
+  C12 a temporary bound once to a call and read once, as the only argument of the call in the very next assignment, is inlined:
+      t = g(y); x = f(t)   ->   x = f(g(y))
   C7  logging statements (`runLog.debug/extra/info/important/warning/error/header(...)` as a statement) are dropped: no rule
       is about what is logged, and log lines come and go
 """
@@ -76,12 +82,42 @@ class _Canon(ast.NodeTransformer):
     # ---- C3
     def visit_If(self, n):
         self.generic_visit(n)
-        if n.orelse and not (len(n.orelse) == 1 and isinstance(n.orelse[0], ast.If)) and isinstance(n.test, ast.UnaryOp) and isinstance(n.test.op, ast.Not):
+        if n.orelse and not (len(n.orelse) == 1 and isinstance(n.orelse[0], ast.If)) and isinstance(n.test, ast.UnaryOp) and isinstance(n.test.op, ast.Not) and not self._leaves(n.body):
             n.test = n.test.operand
             n.body, n.orelse = n.orelse, n.body
         return n
 
     # ---- C1, C4 on statement lists
+    @staticmethod
+    def _leaves(body):
+        if not body:
+            return False
+        last = body[-1]
+        if isinstance(last, (ast.Return, ast.Raise, ast.Continue, ast.Break)):
+            return True
+        if isinstance(last, ast.If) and last.orelse:
+            return _Canon._leaves(last.body) and _Canon._leaves(last.orelse)
+        return False
+
+    def _flatten_exits(self, body):
+        out = []
+        for st in body:
+            if isinstance(st, ast.If) and st.orelse and _Canon._leaves(st.body):
+                tail = st.orelse
+                st.orelse = []
+                out.append(st)
+                out.extend(_Canon._flatten_exits(None, tail))
+            else:
+                out.append(st)
+        return out
+
+    @staticmethod
+    def _as_ternary(st):
+        if isinstance(st, ast.If) and len(st.body) == 1 and len(st.orelse) == 1 and all(isinstance(x, ast.Assign) and len(x.targets) == 1 and isinstance(x.targets[0], ast.Name) for x in (st.body[0], st.orelse[0])) \
+                and st.body[0].targets[0].id == st.orelse[0].targets[0].id:
+            return ast.copy_location(ast.Assign(targets=[ast.Name(id=st.body[0].targets[0].id, ctx=ast.Store())], value=ast.IfExp(test=st.test, body=st.body[0].value, orelse=st.orelse[0].value)), st)
+        return st
+
     def _block(self, body, fn):
         out = []
         i = 0
@@ -99,6 +135,14 @@ class _Canon(ast.NodeTransformer):
                 i += 1
                 continue
             nxt = body[i + 1] if i + 1 < len(body) else None
+            # ---- C12: a temporary bound once to a call and read once, as the only argument of a call in the very next assignment, is inlined:
+            #      t = g(y); x = f(t)   ->   x = f(g(y))
+            if (fn is not None and isinstance(s, ast.Assign) and len(s.targets) == 1 and isinstance(s.targets[0], ast.Name) and isinstance(s.value, ast.Call)
+                    and isinstance(nxt, ast.Assign) and isinstance(nxt.value, ast.Call) and len(nxt.value.args) == 1 and not nxt.value.keywords
+                    and isinstance(nxt.value.args[0], ast.Name) and nxt.value.args[0].id == s.targets[0].id and self._single_use(fn, s.targets[0].id)):
+                nxt.value.args = [s.value]
+                i += 1
+                continue
             if (fn is not None and isinstance(s, ast.Assign) and len(s.targets) == 1 and isinstance(s.targets[0], ast.Name) and isinstance(nxt, ast.Return)
                     and isinstance(nxt.value, ast.Name) and nxt.value.id == s.targets[0].id and self._only_returned(fn, s.targets[0].id)):
                 r = ast.Return(value=s.value)
@@ -112,6 +156,15 @@ class _Canon(ast.NodeTransformer):
         if not out:
             out = [body[0]] if body else body
         return out
+
+    def _single_use(self, fn, name):
+        key = ("single", id(fn), name)
+        if key not in self._ret_cache:
+            loads = [x for x in ast.walk(fn) if isinstance(x, ast.Name) and x.id == name and isinstance(x.ctx, ast.Load)]
+            stores = [x for x in ast.walk(fn) if isinstance(x, ast.Name) and x.id == name and isinstance(x.ctx, (ast.Store, ast.Del))]
+            params = {a.arg for a in fn.args.args + fn.args.kwonlyargs + fn.args.posonlyargs}
+            self._ret_cache[key] = len(loads) == 1 and len(stores) == 1 and name not in params
+        return self._ret_cache[key]
 
     def _dead_const_local(self, fn, name):
         key = ("dead", id(fn), name)
@@ -168,7 +221,26 @@ class _Canon(ast.NodeTransformer):
     visit_AsyncFunctionDef = generic_visit
 
 
+class _Flatten(ast.NodeTransformer):
+    """C10 as a pass of its own, run before everything else (the other rewrites look at whole function bodies and must see the
+    statements where they end up)"""
+
+    def generic_visit(self, node):
+        super().generic_visit(node)
+        for f in ("body", "orelse", "finalbody"):
+            b = getattr(node, f, None)
+            if isinstance(b, list) and b and isinstance(b[0], ast.stmt):
+                if len(b) > 1:
+                    b = [x for x in b if not isinstance(x, ast.Pass)] or b[:1]   # C1 first: a `pass` must not hide a ladder from C11
+                setattr(node, f, [_Canon._as_ternary(x) for x in _Canon._flatten_exits(None, b)])
+        if isinstance(node, ast.Try):
+            for h in node.handlers:
+                h.body = _Canon._flatten_exits(None, h.body)
+        return node
+
+
 def canonicalise(tree: ast.Module) -> ast.Module:
+    tree = _Flatten().visit(tree)
     t = _Canon().visit(tree)
     ast.fix_missing_locations(t)
     return t
